@@ -92,6 +92,17 @@ def coherent(v, p, w):
     return bad
 
 
+_WHILE_CALLERS = {}
+def while_caller(key):
+    """_while() recognises 'the same loop' by the caller's line number: give every loop statement its own line"""
+    f = _WHILE_CALLERS.get(key)
+    if f is None:
+        ns = {"br": br}
+        exec(compile("\n" * (len(_WHILE_CALLERS) + 1) + "f = lambda c, ctx: br._while(c, ctx)", "<verif-while>", "exec"), ns)
+        f = _WHILE_CALLERS[key] = ns["f"]
+    return f
+
+
 def cond_value(v):
     if isinstance(v, LinComb): return v.value
     if isinstance(v, LinCombBool): return v.lc.value
@@ -127,6 +138,47 @@ def run_stmt(s, regs, ins, outs, st):
             continue
         if op == "ignore":
             rt.ignore_errors(bool(s[1])); continue
+        if op == "bset":
+            setattr(st["bv"], "v%d" % s[1], regs[s[2]]); continue
+        if op == "breakif":
+            br._breakif(regs[s[1]], st["bv"]); continue
+        if op == "oif":
+            _, cn, thenb, elifs, elseb = s
+            if br._if(regs[cn], st["bv"]):
+                run_stmts(thenb, regs, ins, outs, st)
+            for condb, cr, body in elifs:
+                def cf(condb=condb, cr=cr):
+                    run_stmts(condb, regs, ins, outs, st)
+                    return regs[cr]
+                if br._elif(cf, st["bv"]):
+                    run_stmts(body, regs, ins, outs, st)
+            if elseb is not None:
+                if br._else(st["bv"]):
+                    run_stmts(elseb, regs, ins, outs, st)
+            br._endif(st["bv"])
+            continue
+        if op == "owhile":
+            _, condb, cr, iters, body = s
+            wc = while_caller(id(s))
+            k = 0
+            def cv():
+                run_stmts(condb, regs, ins, outs, st)
+                return regs[cr]
+            while wc(cv(), st["bv"]) and k < iters:
+                run_stmts(body, regs, ins, outs, st)
+                k += 1
+            br._endwhile(st["bv"])
+            continue
+        if op == "ofor":
+            _, ix, start, stop, maxv, check, body = s
+            for i in br._range(start, regs[stop], max=maxv, ctx=st["bv"], checkstopmax=bool(check)):
+                regs[ix] = i
+                st["snap"][ix] = (plain(i),)
+                st["vals"].append((st["pc"], plain(i)))
+                out_val(i, outs)
+                run_stmts(body, regs, ins, outs, st)
+            br._endfor(st["bv"])
+            continue
         if op == "probe":
             g = rt.guard
             outs.append((10, -1 if g is None else g.value, [])); outs.append((11, 1 if rt._ignore_errors else 0, []))
@@ -160,6 +212,7 @@ def run_stmt(s, regs, ins, outs, st):
         elif op == "ite": v = br.if_then_else(regs[s[2]], regs[s[3]], regs[s[4]])
         elif op == "list": v = [regs[i] for i in s[2]]
         elif op == "index": v = regs[s[2]][s[3]]
+        elif op == "bget": v = getattr(st["bv"], "v%d" % s[2])
         elif op == "meth":
             name, k, recv, args = s[2], s[3], regs[s[4]], [regs[i] for i in s[5]]
             if name == "from_bits": v = LinComb.from_bits(recv)
@@ -196,12 +249,15 @@ def run_case(case):
     outs = []; st = {"pc": 0, "coh": [], "w": w, "vals": [], "snap": {}, "mutated": [], "gstack": [], "probes": [], "exn_ctx": None, "condvals": {}, "guard_conds": []}
     exn = None; gobs = None
     st["regs"] = {}
+    st["bv"] = br.BranchingValues()
     try:
         run_stmts(case["prog"], st["regs"], case["ins"], outs, st)
     except (AssertionError, ValueError, ZeroDivisionError, TypeError, RuntimeError, NotImplementedError, IndexError,
             AttributeError, StopIteration) as e:
         exn = type(e).__name__
         st["msg"] = str(e)[:200]
+    st["bv"].stack.clear()      # BranchingValues.__del__ raises when branches are left open
+    st["final_bvals"] = {k: plain(v) for k, v in st["bv"].vals.items()}
     g = rt.guard
     cur = (None if g is None else items(g.lc), bool(rt._ignore_errors), items(LinComb.ONE.lc))
     if exn is None:
@@ -217,7 +273,7 @@ def run_case(case):
            "dig": [D.digest_vars(p, R.kinds, R.pubs, R.privs), D.digest_cons(p, cons), D.digest_outs(p, outs), D.digest_exn(p, exn, cur)],
            "unsat": unsat[:5], "incoherent": st["coh"][:5], "mutated": st["mutated"][:5], "floatbad": st.get("floatbad", False), "pc": st["pc"],
            "shape": [D.digest_cons(p, cons), "".join(R.kinds), D.digest_outs(p, [(t, 0, l) for t, v, l in outs if t > 0])],
-           "guard_conds": st["guard_conds"][:50],
+           "guard_conds": st["guard_conds"][:50], "final_bvals": st["final_bvals"],
            "globals": [rt.guard is None, bool(rt._ignore_errors), LinComb.ONE is ONE0],
            "final_regs": {str(k): plain(v) for k, v in list(st.get("regs", {}).items())[:200]},
            "vals": st["vals"][:300], "probes": st["probes"][:50], "exn_ctx": st["exn_ctx"], "exn_pc": st.get("exn_pc")}
